@@ -1,7 +1,7 @@
 (* C20 — Bit sets and fixed arrays behave like their mathematical models. Theorems only. *)
 From Coq Require Import List NArith Arith Bool.
 From Coq Require Import ZArith.
-From FFSM2 Require Import Model.BitArray Model.Arrays Proofs.BitArrayProofs Proofs.ArraysProofs Model.Cxx Generated.LeafCode Proofs.LeafTactics Proofs.LeafConsts Proofs.LeafCodeProofs Proofs.LeafCodeArrays.
+From FFSM2 Require Import Model.BitArray Model.Arrays Proofs.BitArrayProofs Proofs.ArraysProofs Model.Cxx Generated.LeafCode Proofs.LeafTactics Proofs.LeafConsts Proofs.LeafLoops Proofs.LeafCodeProofs Proofs.LeafCodeArrays.
 Import ListNotations.
 
 Section BitSet.
